@@ -110,7 +110,7 @@ impl NetProbe for LiveProbe {
                     && c.addr_list.iter().any(|&a| cfg.alive[a])
             })
             .collect();
-        let room = undisturbed.len() <= sim.current_max && cfg.clients.len() <= sim.current_max.max(cfg.max_clients.min(sim.current_max));
+        let room = cfg.room_guaranteed || (undisturbed.len() <= sim.current_max && cfg.clients.len() <= sim.current_max.max(cfg.max_clients.min(sim.current_max)));
         if room {
             for &i in &undisturbed {
                 let c = sim.clients[i].as_ref();
@@ -244,6 +244,20 @@ pub fn scenarios(tier: Tier) -> Vec<NetScenario> {
         c.fates = vec![NFate::Ok, NFate::Drop];
         v.push(c);
     }
+    // S11: a client denied on a full server connects on its retry once the slot is free; a stale denial
+    // (delayed on the path) arriving afterwards must not end the healthy session
+    {
+        let mut c2 = ClientCfg::new(2);
+        c2.start_tick = 7;
+        let mut c = SimCfg::base("1-slot server: client 2 denied at tick 7, slot freed at tick 7, stale denials may arrive late", vec![ClientCfg::new(1), c2]);
+        c.max_clients = 1;
+        c.server_disconnect = Some((7, 1));
+        c.fault_from = 7;
+        c.horizon = 10;
+        c.tail = 14;
+        c.fates = vec![NFate::Ok, NFate::Drop, NFate::Delay4, NFate::DupLate3];
+        v.push(c);
+    }
     // S8: token expires while half-open (server never heard: expiry 4 s)
     {
         let mut cl = ClientCfg::new(1);
@@ -288,7 +302,7 @@ pub fn run(tier: Tier) -> i32 {
     rep.rule("M2 over the netcode world: every schedule with <= d deviations (per datagram both ways: drop/dup/delay1/delay2; attacker injection of request-typed garbage, replays of the client's own response / keep-alive / payload, forged keep-alive / payload) for scenarios: handshake at dt in {100,250,400,1000} ms, two clients, fail-over from a silent first address, client silent after connecting (timeouts 1/2/5 s) with an on-path attacker, server silent, limit raised 1->2 and lowered 2->1 at run time, token expiring while half-open, time-out disabled, keep-alive only session with coarse ticks; oracle from the harness's own delivery log: update_client disconnects iff no authentic datagram arrived for more than the token time-out (same on the client side), half-open sessions are gone once server time passes the token expiry, and after the fault-free tail every undisturbed honest client for which there is room under the current limit is connected on both sides");
     rep.assume("authentic = first delivery of a genuine keep-alive / payload (or the connecting response) of the honest peer; tails are long enough for 4 handshake legs at the 250 ms send rate plus one time-out per silent address; time-outs >= 2 s in handshake-fault scenarios so that <= 3 losses cannot exhaust them");
     let sc = scenarios(tier);
-    run_net_scenarios(&mut rep, "m2", &sc, tier.pick(2, 3), tier.pick(120.0, 1500.0));
+    run_net_scenarios(&mut rep, "m2", &sc, tier.pick(2, 4), tier.pick(120.0, 3000.0));
     rep.finish()
 }
 
